@@ -1,1 +1,6 @@
 import Rtsp.Props.C06
+#print axioms Rtsp.Codec.Fragmented.c06_payload_le
+#print axioms Rtsp.Codec.Fragmented.c06_seq_consecutive
+#print axioms Rtsp.Codec.Fragmented.c06_seq_many
+#print axioms Rtsp.Codec.Fragmented.c06_pt_ssrc
+#print axioms Rtsp.Codec.Fragmented.c06_marker_only_last
